@@ -236,3 +236,14 @@ func BytesDigest(b []byte) string {
 	s := sha256.Sum256(b)
 	return strconv.Itoa(len(b)) + ":" + hex.EncodeToString(s[:12])
 }
+
+var namesOn = os.Getenv("GARBLE_VERIF_NAMES") == "1"
+
+// Name records one application of the naming function (only with GARBLE_VERIF_NAMES=1).
+func Name(salt, seed []byte, name string, out []byte) {
+	if !namesOn {
+		return
+	}
+	s := sha256.Sum256(salt)
+	Event("hash", "salt", hex.EncodeToString(s[:8]), "seed", hex.EncodeToString(seed), "name", name, "out", string(out))
+}
